@@ -251,7 +251,25 @@ fn main() {
     } else {
         (run_layout(&prop, args.tier, threads, cap), None)
     };
+    // every violation is replayed once more from its recorded history before it is reported; a
+    // replay that does not reproduce the key is a machinery error, never a verdict
     for v in run.violations.clone() {
+        if v.case["steps"].as_array().map_or(false, |a| !a.is_empty()) {
+            let h = history_from_json(&v.case);
+            let naming = if prop == "C20" { Naming::Reuse } else { Naming::Unique };
+            let oracle = oracle_for(&prop, naming, true);
+            let again = std::panic::catch_unwind(std::panic::AssertUnwindSafe(|| {
+                let ex = execute(&h, naming);
+                oracle(&h, ex).0
+            }));
+            let reproduced = match again {
+                Ok(vs) => vs.iter().any(|a| a.key == v.key),
+                Err(_) => v.key.ends_with("/panic-while-observing"),
+            };
+            if !reproduced {
+                vcommon::machinery_error(&format!("violation {} did not reproduce when its history was replayed", v.key));
+            }
+        }
         report.add(v);
     }
     report.violations_total = run.violating_transitions.max(report.violations_total);
